@@ -703,6 +703,73 @@ func c12ErrSurfacesPastJoins(call ssa.CallInstruction, tolerated []string) bool 
 	return true
 }
 
+// c12SavedTempName: v (used at `at` in g) is Name() of a file that a dominating,
+// successful call of a function reaching internal/ioutil.CopyBuffer (the size- and
+// digest-verifying copy) was handed; or result #i of an in-package helper whose
+// success dominates `at` and whose every non-empty return of #i is such a name.
+func c12SavedTempName(g *ssa.Function, v ssa.Value, at ssa.Instruction, depth int) bool {
+	rs := Roots(v)
+	if len(rs) == 0 || depth > 2 {
+		return false
+	}
+	for _, rt := range rs {
+		ok := false
+		switch u := rt.(type) {
+		case *ssa.Call:
+			if CalleeName(u) != "(*os.File).Name" {
+				return false
+			}
+			for _, sv := range Calls(g, func(string) bool { return true }) {
+				sf := StaticCallee(sv)
+				svc, isCall := sv.(*ssa.Call)
+				if sf == nil || !isCall || !inModule(sf) || !c11Reaches(sf, "~/internal/ioutil.CopyBuffer", 2) {
+					continue
+				}
+				for _, a := range svc.Call.Args {
+					if c11SameRoots(a, u.Call.Args[0]) {
+						if d, _ := c11SuccessDominates(svc, at); d {
+							ok = true
+						}
+					}
+				}
+			}
+		case *ssa.Extract:
+			hc, isCall := u.Tuple.(*ssa.Call)
+			if !isCall {
+				return false
+			}
+			H := StaticCallee(hc)
+			if H == nil || !inModule(H) || len(H.Blocks) == 0 || fnPkgPath(H) != fnPkgPath(g) {
+				return false
+			}
+			if d, _ := c11SuccessDominates(hc, at); !d {
+				return false
+			}
+			ok = true
+			n := 0
+			for _, ret := range Returns(H) {
+				if u.Index >= len(ret.Results) {
+					return false
+				}
+				if k, isStr := constString(ret.Results[u.Index]); isStr && k == "" {
+					continue // next to an error
+				}
+				n++
+				if !c12SavedTempName(H, ret.Results[u.Index], ret, depth+1) {
+					ok = false
+				}
+			}
+			if n == 0 {
+				ok = false
+			}
+		}
+		if !ok {
+			return false
+		}
+	}
+	return true
+}
+
 // c12R2ParseArmed (mutation sweep, utils.go|bin-op|2): the recorded checksum
 // is turned into a verifier when it is PRESENT.  A test of the checksum against
 // "" (or of its length against 0) may skip the parse for an empty checksum, but
@@ -1448,6 +1515,9 @@ func c12HasChmod(fn *ssa.Function, fns []*ssa.Function, depth int) bool {
 }
 
 // c12ChmodSkipped explores fn from just behind instruction `from` (from == nil: from the entry of fn).
+// c12KnownBools: boolean values decided for the site under exploration (results of the creating helper).
+var c12KnownBools map[ssa.Value]bool
+
 func c12ChmodSkipped(fns []*ssa.Function, flags map[*ssa.Function]map[ssa.Value]bool, fn *ssa.Function, from ssa.Instruction, path ssa.Value, handleTuple ssa.Value, kind *int64, depth int) (skippedOut bool, whyOut string, reachedOut bool) {
 	// the entry kind: a Typeflag == k edge dominating the site
 	if kind == nil && from != nil {
@@ -1559,6 +1629,9 @@ func c12ChmodSkipped(fns []*ssa.Function, flags map[*ssa.Function]map[ssa.Value]
 		if flag[v] {
 			return true, true
 		}
+		if kb, ok := c12KnownBools[v]; ok {
+			return kb, true
+		}
 		if k, isConst := v.(*ssa.Const); isConst && k.Value != nil && k.Value.Kind() == constant.Bool {
 			return constant.BoolVal(k.Value), true
 		}
@@ -1576,10 +1649,8 @@ func c12ChmodSkipped(fns []*ssa.Function, flags map[*ssa.Function]map[ssa.Value]
 		}
 		return false, false
 	}
+	var hitRets []*ssa.Return // the successful returns reached without the chmod (all of them: the walk does not stop at the first)
 	walk = func(b, pred *ssa.BasicBlock, idx int, phis map[*ssa.Phi]ssa.Value) {
-		if skipped {
-			return
-		}
 		if idx == 0 {
 			st := state{b, pred}
 			if visited[st] {
@@ -1623,6 +1694,7 @@ func c12ChmodSkipped(fns []*ssa.Function, flags map[*ssa.Function]map[ssa.Value]
 			if r, isRet := in.(*ssa.Return); isRet {
 				if okRets[r] {
 					skipped = true
+					hitRets = append(hitRets, r)
 				}
 				return
 			}
@@ -1730,7 +1802,45 @@ func c12ChmodSkipped(fns []*ssa.Function, flags map[*ssa.Function]map[ssa.Value]
 		if _, isDefer := st.call.(*ssa.Defer); isDefer {
 			return true, "the creating helper is called deferred", reached
 		}
+		// a boolean the helper returns next to this entry's creation ("created", "handled") is a constant for this site:
+		// the caller's tests of that result are decided
+		saved := c12KnownBools
+		kb := map[ssa.Value]bool{}
+		for k, v := range saved {
+			kb[k] = v
+		}
+		if cv := st.call.Value(); cv != nil && cv.Referrers() != nil && len(hitRets) > 0 {
+			for _, ref := range *cv.Referrers() {
+				ex, isEx := ref.(*ssa.Extract)
+				if !isEx {
+					continue
+				}
+				var val *bool
+				same := true
+				for _, r := range hitRets {
+					if ex.Index >= len(r.Results) {
+						same = false
+						continue
+					}
+					k, isK := r.Results[ex.Index].(*ssa.Const)
+					if !isK || k.Value == nil || k.Value.Kind() != constant.Bool {
+						same = false
+						continue
+					}
+					b := constant.BoolVal(k.Value)
+					if val != nil && *val != b {
+						same = false
+					}
+					val = &b
+				}
+				if same && val != nil {
+					kb[ex] = *val
+				}
+			}
+		}
+		c12KnownBools = kb
 		sk, why, r2 := c12ChmodSkipped(fns, flags, st.g, st.call.(ssa.Instruction), st.call.Common().Args[pidx], nil, st.kind, depth+1)
+		c12KnownBools = saved
 		if r2 {
 			reached = true
 		}
@@ -1824,6 +1934,17 @@ func c12R1Dir(c *Ctx, fns []*ssa.Function) {
 				closes = append(closes, cl)
 			}
 		}
+		// … or gzw.Close as a step of a table of steps run by a first-error loop: flushed once the table is exhausted
+		var closeDone []Edge
+		var stepCalls []*ssa.Call
+		for _, sl := range c11StepLoops(D) {
+			for _, st := range sl.Steps {
+				if recv := c11BoundMethodStep(st, "Close"); recv != nil && strings.HasSuffix(recv.Type().String(), "compress/gzip.Writer") && c11DerivesFrom(recv, map[ssa.Value]bool{gzw: true}) {
+					closeDone = append(closeDone, sl.Done)
+					stepCalls = append(stepCalls, sl.Call)
+				}
+			}
+		}
 		// (b) descriptor digest
 		dst := c12FieldStores(D, c12Desc, "Digest")
 		okDg := len(dst) > 0
@@ -1838,9 +1959,9 @@ func c12R1Dir(c *Ctx, fns []*ssa.Function) {
 		}
 		c.Check(R1, dn+"|descriptor-digest-is-gzip-digest", D.Pos(), okDg,
 			ifelse(okDg, "Descriptor.Digest is Digest() of the digester fed by the gzip stream", "Descriptor.Digest is not the digest of the compressed bytes written to the temp file: Fetch returns bytes that do not match the descriptor"))
-		okFlushD := len(closes) > 0 && len(dgCalls) > 0
+		okFlushD := len(closes)+len(closeDone) > 0 && len(dgCalls) > 0
 		for _, call := range dgCalls {
-			if !MustPass(call, newCut().Calls(closes)) {
+			if !MustPass(call, newCut().Calls(closes).Edges(closeDone...)) {
 				okFlushD = false
 			}
 		}
@@ -1850,9 +1971,13 @@ func c12R1Dir(c *Ctx, fns []*ssa.Function) {
 			r := ErrFlow(cl, ErrFlowOpts{})
 			c.Check(R1, dn+"|flush-error-surfaces", cl.Pos(), r.OK, ifelse(r.OK, r.How, "a failed gzip flush is ignored: "+r.Detail))
 		}
+		for _, sc := range stepCalls {
+			r := ErrFlow(sc, ErrFlowOpts{})
+			c.Check(R1, dn+"|flush-error-surfaces", sc.Pos(), r.OK, ifelse(r.OK, r.How+" (step of a first-error loop)", "a failed step of the flush table (gzip Close) is ignored: "+r.Detail))
+		}
 		// (c) size
 		sst := c12FieldStores(D, c12Desc, "Size")
-		okSize := len(sst) > 0 && len(closes) > 0
+		okSize := len(sst) > 0 && len(closes)+len(closeDone) > 0
 		for _, s := range sst {
 			rs := Roots(s.Val)
 			if len(rs) != 1 {
@@ -1870,7 +1995,7 @@ func c12R1Dir(c *Ctx, fns []*ssa.Function) {
 					}
 				}
 			}
-			if stat == nil || !MustPass(stat, newCut().Calls(closes)) {
+			if stat == nil || !MustPass(stat, newCut().Calls(closes).Edges(closeDone...)) {
 				okSize = false
 			}
 		}
@@ -2437,29 +2562,7 @@ func c12R2(c *Ctx, fns []*ssa.Function) {
 				}
 				c.Check(R2, gn+"|passes-recorded-digest", call.Pos(), okChk,
 					ifelse(okChk, "the checksum handed to the extractor is expected.Annotations[AnnotationDigest]", "the extractor is not given the descriptor's uncompressed-digest annotation: nothing is verified on unpack"))
-				okSave := false
-				if gzIdx >= 0 {
-					for _, rt := range Roots(args[gzIdx]) {
-						nc, ok := rt.(*ssa.Call)
-						if !ok || CalleeName(nc) != "(*os.File).Name" {
-							continue
-						}
-						for _, sv := range Calls(g, func(string) bool { return true }) {
-							sf := StaticCallee(sv)
-							svc, isCall := sv.(*ssa.Call)
-							if sf == nil || !isCall || !inModule(sf) || !c11Reaches(sf, "~/internal/ioutil.CopyBuffer", 2) {
-								continue
-							}
-							for _, a := range svc.Call.Args {
-								if c11SameRoots(a, nc.Call.Args[0]) {
-									if d, _ := c11SuccessDominates(svc, call.(ssa.Instruction)); d {
-										okSave = true
-									}
-								}
-							}
-						}
-					}
-				}
+				okSave := gzIdx >= 0 && c12SavedTempName(g, args[gzIdx], call.(ssa.Instruction), 0)
 				c.Check(R2, gn+"|gzip-saved-through-verifying-copy", call.Pos(), okSave,
 					ifelse(okSave, "the gzip file given to the extractor was written by the verifying saver (CopyBuffer checks size and digest) and the save succeeded", "the gzip that is unpacked was not saved through the size/digest-verifying copy, or the extraction runs although the save failed"))
 			}
@@ -3268,6 +3371,12 @@ func c12R4(c *Ctx, fns []*ssa.Function) {
 				r.OK, r.How = true, how
 			}
 		}
+		if !r.OK && ErrResultIndex(call.Parent().Signature) >= 0 {
+			// the tolerance may be a helper that returns nil exactly for the tolerated sentinels and its argument otherwise
+			if ok, how := c12ToleranceFilterSurfaces(call, tol); ok {
+				r.OK, r.How = true, how
+			}
+		}
 		if call.Parent() != RD && ErrResultIndex(call.Parent().Signature) < 0 {
 			// inside the yield closure of a range-over-func loop
 			r.OK, r.Detail = c12ErrSurfacesFromYield(call, tol)
@@ -3757,6 +3866,72 @@ func c12ErrFlowWithPredicates(call ssa.CallInstruction, tolerated []string) (boo
 		}
 	}
 	return true, "tested; every failure path returns a non-nil error (tolerated, as decided by " + helper + ": " + strings.Join(tolerated, ", ") + ")"
+}
+
+// c12ToleranceFilterSurfaces: the error of call is handed to a pass-through
+// filter T (`c11PassThroughFilter`) whose nil returns lie behind "argument is
+// nil" or errors.Is(argument, <tolerated>) edges only; the filtered value (or,
+// behind its non-nil test, the original error) is what every failure path
+// returns.  That is the inline `if err != nil && !errors.Is(err, X) { return err }`.
+func c12ToleranceFilterSurfaces(call ssa.CallInstruction, tolerated []string) (bool, string) {
+	fn := call.Parent()
+	errIdx := ErrResultIndex(fn.Signature)
+	e := ErrOf(call)
+	if e == nil || errIdx < 0 {
+		return false, ""
+	}
+	al := Aliases(e)
+	for _, fc := range c11FilterCalls(fn, al) {
+		T := StaticCallee(fc)
+		pi := c11PassThroughFilter(T)
+		pal := Aliases(T.Params[pi])
+		nilE, _, _ := NilTests(T, pal)
+		okT := true
+		ct := newCut().Edges(nilE...).Edges(toleratedEdges(T, pal, tolerated)...)
+		for _, a := range RetAtoms(T, 0) {
+			isNil := false
+			if k, isK := a.Val.(*ssa.Const); isK && k.IsNil() {
+				isNil = true
+			}
+			if _, z := a.Val.(zeroMarker); z {
+				isNil = true
+			}
+			if isNil && !AtomMustPass(a, ct) {
+				okT = false
+			}
+		}
+		if !okT {
+			continue
+		}
+		r := ssa.Value(fc)
+		ral := Aliases(r)
+		both := map[ssa.Value]bool{}
+		for v := range al {
+			both[v] = true
+		}
+		for v := range ral {
+			both[v] = true
+		}
+		_, nonNil, ifs := NilTests(fn, ral)
+		if len(ifs) == 0 {
+			for _, a := range RetAtoms(fn, errIdx) {
+				if ral[a.Val] || ral[strip(a.Val)] {
+					return true, "handed to " + FnName(T) + " (nil only for " + strings.Join(tolerated, ", ") + ") and the result returned"
+				}
+			}
+			continue
+		}
+		ok := len(nonNil) > 0
+		for _, ne := range nonNil {
+			if findNilReturnFrom(fn, ne, errIdx, newCut().Instr(fc), both) != nil {
+				ok = false
+			}
+		}
+		if ok {
+			return true, "handed to " + FnName(T) + " (nil only for " + strings.Join(tolerated, ", ") + "); a non-nil result returns the error"
+		}
+	}
+	return false, ""
 }
 
 // c12ErrSurfacesFromYield: inside the yield closure of a range-over-func loop an
